@@ -20,7 +20,9 @@ RULE = (
     '(2) agreement with a structural reference for the CSS 2.1 grammar (valid => valid always; invalid => invalid for '
     'properties defined by one profile only); (3) unknown names are never valid; (4) declaration block / rule / sheet '
     'validity is the conjunction of ALL their declarations (repeated names, declarations nested in @media / @page / margin boxes, '
-    '@font-face in its own context); (5) validate on/off gives identical content. Values include near misses outside ASCII (Kelvin '
+    '@font-face in its own context); (5) validate on/off gives identical content; (6) the verdict is the same for five spellings of the '
+    'priority (upper case, white space, comment, escape; also through the API) and under serializer preferences that change how the value '
+    'is written (omitLeadingZero, the minified preset, defaultPropertyPriority, minimizeColorHash). Values include near misses outside ASCII (Kelvin '
     'sign for k, long s for s, Arabic-Indic and full-width digits, NBSP) and numbers that only look integral after rounding. expect: '
     'zero lengths / integral floats where only a number / integer is allowed (listed finding). Non-trivial: the '
     'value is valid in one context or spelling class and a near miss exists, or has >= 2 components; distinct by (name, '
@@ -179,10 +181,15 @@ def respell_num(num, sp):
     return num
 
 
-def verdicts(name, value, prio, fontface=False):
+PRIO_SPELLINGS = [(' !important', 'important'), (' !IMPORTANT', 'IMPORTANT'), ('! Important', '!important'), (' !/*c*/ important', 'Important'),
+                  (' !imp\\ortant', '!IMPORTANT')]
+
+
+def verdicts(name, value, prio, fontface=False, prio_spelling=0):
     """verdict through every origin; returns dict origin -> bool"""
     out = {}
-    decl = f'{name}: {value}{" !important" if prio else ""}'
+    prio_text, prio_api = PRIO_SPELLINGS[prio_spelling]
+    decl = f'{name}: {value}{prio_text if prio else ""}'
     wrap = ('@font-face { %s }' if fontface else 'a { %s }')
     kind = 'FONT_FACE_RULE' if fontface else 'STYLE_RULE'
 
@@ -208,28 +215,28 @@ def verdicts(name, value, prio, fontface=False):
             out['parseStyle'] = get(cssutils.parseStyle(decl))
         with lib('origin:Property'):
             try:
-                out['Property()'] = bool(Property(name, value, 'important' if prio else '').valid)
+                out['Property()'] = bool(Property(name, value, prio_api if prio else '').valid)
             except Exception:  # noqa: BLE001  (raising mode is off: should not happen)
                 raise
         with lib('origin:setProperty'):
             s = CSSStyleDeclaration()
-            s.setProperty(name, value, 'important' if prio else '')
+            s.setProperty(name, value, prio_api if prio else '')
             out['setProperty'] = get(s)
             s = CSSStyleDeclaration()
-            s[name] = (value, 'important' if prio else '')
+            s[name] = (value, prio_api if prio else '')
             out['item'] = get(s)
             s = CSSStyleDeclaration()
-            s.setProperty(Property(name, value, 'important' if prio else ''))
+            s.setProperty(Property(name, value, prio_api if prio else ''))
             out['setProperty(Property)'] = get(s)
     else:
         with lib('origin:fontface-dom'):
             base = cssutils.parseString('@font-face { font-family: "F"; src: url(f.woff) }')
             r = rule_of(base)
-            r.style.setProperty(name, value, 'important' if prio else '')
+            r.style.setProperty(name, value, prio_api if prio else '')
             out['setProperty'] = get(r.style)
             base = cssutils.parseString('@font-face { font-family: "F"; src: url(f.woff) }')
             r = rule_of(base)
-            r.style.setProperty(Property(name, value, 'important' if prio else ''))
+            r.style.setProperty(Property(name, value, prio_api if prio else ''))
             out['setProperty(Property)'] = get(r.style)
             base = cssutils.parseString('@font-face { font-family: "F"; src: url(f.woff) }')
             r = rule_of(base)
@@ -268,6 +275,29 @@ def check_verdict(case, ctx):
             bad = {k: v for k, v in got.items() if v != verdict}
             if bad:
                 raise Violation('verdict:depends-on-spelling', f'{name}: {value!r} is {verdict}, but {v2!r}: {bad}')
+        # the priority may be written in any case, with white space, a comment or an escape
+        if case['important']:
+            for k in range(1, len(PRIO_SPELLINGS)):
+                got = verdicts(name, value, True, prio_spelling=k)
+                bad = {o: v for o, v in got.items() if v != verdict}
+                if bad:
+                    raise Violation('verdict:depends-on-priority-spelling', f'{name}: {value!r} is {verdict}, but with {PRIO_SPELLINGS[k]}: {bad}')
+        # serializer preferences are no input of the verdict (the value handed to validation is a serialisation)
+        for setup in ('omitLeadingZero', 'useMinified', 'defaultPropertyPriority', 'minimizeColorHash'):
+            try:
+                with lib('prefs'):
+                    if setup == 'useMinified':
+                        cssutils.ser.prefs.useMinified()
+                    elif setup == 'omitLeadingZero':
+                        cssutils.ser.prefs.omitLeadingZero = True
+                    else:
+                        setattr(cssutils.ser.prefs, setup, False)
+                got = verdicts(name, value, case['important'])
+            finally:
+                cssutils.ser.prefs.useDefaults()
+            bad = {o: v for o, v in got.items() if v != verdict}
+            if bad:
+                raise Violation('verdict:depends-on-serializer-preferences', f'{name}: {value!r} is {verdict}, but under {setup}: {bad}')
         # font-face context: consistent across origins
         ff = verdicts(name, value, case['important'], fontface=True)
         pff = {k: v for k, v in ff.items() if v is not None}
